@@ -59,7 +59,7 @@ Fresh ==
     /\ grace' = FALSE
     /\ cl' = [j \in 1..3 |-> "idle"]
     /\ handles' = 1 /\ dropped' = FALSE
-    /\ calls' = {}
+    /\ calls' = {} /\ sendpc' = "none"
     /\ peerAlive' = TRUE /\ alertIn' = FALSE /\ abortIn' = FALSE /\ shutdownIn' = FALSE
     /\ wfcLeft' = 2
     /\ fired' = <<>>
@@ -78,7 +78,7 @@ TraceInit ==
     /\ grace = FALSE
     /\ cl = [j \in 1..3 |-> "idle"]
     /\ handles = 1 /\ dropped = FALSE
-    /\ calls = {}
+    /\ calls = {} /\ sendpc = "none"
     /\ peerAlive = TRUE /\ alertIn = FALSE /\ abortIn = FALSE /\ shutdownIn = FALSE
     /\ wfcLeft = 2
     /\ fired = <<>>
@@ -133,7 +133,7 @@ TSig ==
           /\ sig' = Ev.sig
           /\ UNCHANGED <<peer, reason, ap, iceT, sock, seenL, seenC, role, lp, cp, cval, cnext, dtls, dtask,
                          dpermit, seenD, sctp, stask, srun, spermit, swhy, loops, chan, opened, closes, grace, cl,
-                         handles, dropped, calls, peerAlive, alertIn, abortIn, shutdownIn, wfcLeft, fired>>
+                         handles, dropped, calls, sendpc, peerAlive, alertIn, abortIn, shutdownIn, wfcLeft, fired>>
     /\ UNCHANGED tr /\ Consume
 
 \* ---- C
@@ -183,20 +183,20 @@ TPub ==
 \* ---- close() and Drop
 TFireEffect(e) ==
     CASE e = "BlockedSender" ->
-           /\ peerAlive' = FALSE /\ calls' = calls \cup {"send"} /\ alertIn' \in BOOLEAN
+           /\ peerAlive' = FALSE /\ calls' = calls \cup {"send"} /\ alertIn' \in BOOLEAN /\ UNCHANGED sendpc
            /\ UNCHANGED <<cl, handles, iceT, sock, abortIn, shutdownIn>>
       [] e = "Close" ->
            /\ cl' = [cl EXCEPT ![FreeCloser] = "begin"]
-           /\ UNCHANGED <<handles, iceT, sock, peerAlive, alertIn, abortIn, shutdownIn, calls>>
+           /\ UNCHANGED <<handles, iceT, sock, peerAlive, alertIn, abortIn, shutdownIn, calls, sendpc>>
       [] e = "SocketLoss" ->
            \* the harness plays it with close() on the peer: now and then its close_notify still gets out
            /\ peerAlive' = FALSE /\ alertIn' \in BOOLEAN
-           /\ UNCHANGED <<cl, handles, iceT, sock, abortIn, shutdownIn, calls>>
+           /\ UNCHANGED <<cl, handles, iceT, sock, abortIn, shutdownIn, calls, sendpc>>
       [] e \in {"PeerSctpAbort", "PeerSctpShutdown"} ->
            \* ... and the harness's peer closes itself shortly after having sent the chunk
            /\ peerAlive' = FALSE /\ alertIn' \in BOOLEAN
            /\ abortIn' = (e = "PeerSctpAbort") /\ shutdownIn' = (e = "PeerSctpShutdown")
-           /\ UNCHANGED <<cl, handles, iceT, sock, calls>>
+           /\ UNCHANGED <<cl, handles, iceT, sock, calls, sendpc>>
       [] OTHER -> Effect(e)
 
 TFire ==
@@ -276,7 +276,7 @@ TDcClose ==
 
 TApiBegin ==
     /\ Is("api_begin")
-    /\ calls' = IF Ev.site = "wfc" THEN calls \cup {"wfc"} ELSE calls
+    /\ calls' = (IF Ev.site = "wfc" THEN calls \cup {"wfc"} ELSE calls) /\ UNCHANGED sendpc
     /\ UNCHANGED <<peer, sig, reason, ap, iceT, sock, seenL, seenC, role, lp, cp, cval, cnext, dtls, dtask, dpermit,
                    seenD, sctp, stask, srun, spermit, swhy, loops, chan, opened, closes, grace, cl, handles, dropped,
                    peerAlive, alertIn, abortIn, shutdownIn, wfcLeft, fired>>
@@ -284,7 +284,8 @@ TApiBegin ==
 
 TApiEnd ==
     /\ Is("api_end")
-    /\ calls' = IF Ev.site = "wfc" THEN calls \ {"wfc"} ELSE IF Ev.site = "send" THEN calls \ {"send"} ELSE calls
+    /\ calls' = (IF Ev.site = "wfc" THEN calls \ {"wfc"} ELSE IF Ev.site = "send" THEN calls \ {"send"} ELSE calls)
+    /\ UNCHANGED sendpc
     /\ UNCHANGED <<peer, sig, reason, ap, iceT, sock, seenL, seenC, role, lp, cp, cval, cnext, dtls, dtask, dpermit,
                    seenD, sctp, stask, srun, spermit, swhy, loops, chan, opened, closes, grace, cl, handles, dropped,
                    peerAlive, alertIn, abortIn, shutdownIn, wfcLeft, fired>>
